@@ -133,6 +133,10 @@ def gen_scripts(prop, tier, rng):
             for kind in gen.KINDS:
                 S.append(gen.valid_history(rng, kind, 25))
                 S.append(gen.valid_history(rng, kind, 20, small=True))
+        # chunk x ratio products that are integers in exact arithmetic, next to powers of two
+        for _ in range(3 * n):
+            for kind in gen.ASYNC:
+                S.append(gen.integer_product_history(rng, kind))
         # chunk sizes beyond 2^16
         for _ in range(max(2, n // 12)):
             for kind in gen.KINDS:
